@@ -396,7 +396,7 @@ def prepare(tier, N):
 def rings(chk, tier, N):
     cases = list(_cases)
     res = vf.pmap(run_ring, cases, case_timeout=300)
-    tot = 0; created = 0; singles = []
+    tot = 0; created = 0; singles = []; nrisky = {}
     per = {}
     for c, r in zip(cases, res):
         if 'n' not in r:
@@ -410,8 +410,10 @@ def rings(chk, tier, N):
         chk.outcome('%s %s' % (c['creator'], 'ok' if not r['bad'] else 'MISMATCH'))
         for op, cls, single, msg in r['bad']:
             chk.violation(ring_key(c, op, cls), {'cfg': c['cfg'], 'kind': 'ring', 'case': c, 'single': single}, msg)
-        for op, a, x, y in r['risky'][:3]:
-            if c['no'] <= 3 * 8 if 'no' in c else c['p'][0] < 200:
+        for op, a, x, y in r['risky']:
+            k = (c['cfg'], c['creator'], op)
+            if nrisky.get(k, 0) < 2 and not a:
+                nrisky[k] = nrisky.get(k, 0) + 1
                 singles.append(dict(c, single=dict(op=op, alias=a, x='%x' % x, y='%x' % y)))
     if singles:
         res = vf.pmap(run_single, singles, case_timeout=8)
